@@ -222,6 +222,7 @@ BODY_A = {
     "a8": [("diagonal", '"Hp" + "B"'), '"Hp @ A"'],
     "a9": [("offdiagonal", '"Hp" - "Hp @ A".adj'), ("diagonal", '"Hp @ A" / -2')],
     "a10": ['"Hp"', '"B" + "B"'],
+    "a11": [("diagonal", '"Ad @ H @ A" / 2 + "Hp"'), ("offdiagonal", '"Hp"')],
 }
 BODY_B = {
     "b1": ['"Hp"'],
@@ -232,6 +233,7 @@ BODY_B = {
     "b6": ['f("A") - "Hp" / 2'],
     "b7": [("diagonal", '"Ad @ A"'), ("offdiagonal", '-"Hp @ A"')],
     "b8": ['"H" + "H"'],
+    "b9": ['"Ad @ H @ A" - "Hp"'],
 }
 K3_BODY = {"k3a": [("diagonal", 'f("Hp")')], "k3b": [("diagonal", '"Hp" + f("B")'), ("offdiagonal", '"Hp"')]}
 STARTS_A = [0, 1, "H_0", None]
@@ -261,7 +263,7 @@ def render(startA, markerA, bodyA, startB, bodyB, ret, products3=True):
     L += block("B", startB, None, bodyB)
     L += ['    with "Ad":', '        "A".adj']
     text = " ".join(st[1] if isinstance(st, tuple) else st for st in list(bodyA) + list(bodyB))
-    for p, h in (("Hp @ A", False), ("A @ B", False), ("Ad @ A", True), ("Hp @ A @ B", False)):
+    for p, h in (("Hp @ A", False), ("A @ B", False), ("Ad @ A", True), ("Hp @ A @ B", False), ("Ad @ H @ A", True)):
         if f'"{p}"' not in text:
             continue  # only declare the products the program uses (factors of products are never auto-deleted)
         L += [f'    with "{p}":', "        hermitian" if h else "        pass"]
